@@ -91,6 +91,12 @@ func validateEncryptedDataLength(data []byte) error {
 		return oops.Errorf("encrypted data too short: need at least %d bytes, got %d",
 			minSize, len(data))
 	}
+	// X25519 ignores the most significant bit of the peer's u-coordinate and the ephemeral key
+	// is not bound as associated data, so a ciphertext with that bit flipped would decrypt to
+	// the same plaintext. A genuine ephemeral key never has the bit set: reject it.
+	if data[x25519.PublicKeySize-1]&0x80 != 0 {
+		return oops.Errorf("non-canonical ephemeral public key (most significant bit set)")
+	}
 	return nil
 }
 
